@@ -8,7 +8,8 @@
 (*   B  the reference for HistoryFree: a FRESH process that performs only  *)
 (*      the build A has just finished (same program, config, symbols,      *)
 (*      file) - two-history formulation of "depends only on this build"    *)
-(*   C  (WithAsIs) the same history as A with the KNOWN deviations on =    *)
+(*   C  (WithAsIs) the same history as A with the KNOWN deviations on      *)
+(*      (AsIsCache / AsIsPatch / AsIsNoFile, from known_findings.json) =   *)
 (*      what the pinned tree is expected to do; only printed, never judged *)
 (* TLC picks the program (from the table the harness derived from CPython, *)
 (* JSON file C12_PROGS) at the first build and a config / symbol table /   *)
@@ -22,7 +23,8 @@ CONSTANTS ModuleCacheKeepsCtx, BytecodePatch312, NoFilenameCompile, BuiltinBefor
           FilePerBuild,     \* TRUE: the file flag is chosen at every build; FALSE: once per history
           TwoHistories,     \* run the reference instance B
           WithAsIs,         \* run the as-is instance C
-          EmitJson          \* print every complete history
+          EmitJson,         \* print every complete history
+          AsIsCache, AsIsPatch, AsIsNoFile   \* which known deviations the as-is instance C has on (known_findings.json)
 
 VARIABLES stA, stB, stC, turn, pidx, hist
 
@@ -32,7 +34,7 @@ Prog(i) == Progs[i]
 
 A == INSTANCE AyEvalNS WITH st <- stA
 B == INSTANCE AyEvalNS WITH st <- stB
-C == INSTANCE AyEvalNS WITH st <- stC, ModuleCacheKeepsCtx <- TRUE, BytecodePatch312 <- TRUE, NoFilenameCompile <- TRUE,
+C == INSTANCE AyEvalNS WITH st <- stC, ModuleCacheKeepsCtx <- AsIsCache, BytecodePatch312 <- AsIsPatch, NoFilenameCompile <- AsIsNoFile,
                             BuiltinBeforeCfg <- FALSE, SymbolsLeak <- FALSE
 
 vars == <<stA, stB, stC, turn, pidx, hist>>
